@@ -1,11 +1,13 @@
 package checks
 
 import (
+	"math/big"
 	"fmt"
 	"runtime"
 	"testing"
 
 	"verifharness/mon"
+	"verifharness/ref"
 )
 
 // C03 — a built certificate's new exit root follows from its bridge exits.
@@ -56,6 +58,38 @@ func TestC09(t *testing.T) {
 		}
 		g := rng(r, "c09", i)
 		c02Walk(r, caseID, g, cfgs[g.Intn(len(cfgs))], nil, 50+g.Intn(r.N(50, 100)), alphabet, false, "C09")
+	})
+	// where the claims come from (plane shared with C20): a claim's leaf type, proofs and exit roots
+	// are taken from the transaction's call trace; transactions that claim an asset AND a message
+	// (both contract generations) must leave each claim with the details of its own call, otherwise
+	// the imported exit's leaf would not lead to the exit roots
+	nTr := r.N(300, 20000)
+	parallel(runtime.NumCPU(), runtime.NumCPU(), func(w int) {
+		g := rng(r, "c09trace", w)
+		for i := 0; i < nTr/runtime.NumCPU(); i++ {
+			pre := g.Intn(4) == 0
+			target := ref.GlobalIndex(g.Intn(2) == 0, uint32(g.Intn(3)), uint32(g.Intn(100)))
+			if pre {
+				target = big.NewInt(int64(g.Intn(1000)))
+			}
+			root := c20Other(g)
+			nCalls := 2 + g.Intn(3)
+			match := g.Intn(nCalls)
+			for k := 0; k < nCalls; k++ {
+				gi := new(big.Int).Add(target, big.NewInt(int64(1+k)))
+				if k == match {
+					gi = new(big.Int).Set(target)
+				}
+				f := c20ClaimCall(g, gi, pre && g.Intn(2) == 0)
+				if g.Intn(3) == 0 {
+					mid := c20Other(g)
+					mid.Calls = append(mid.Calls, f)
+					f = mid
+				}
+				root.Calls = append(root.Calls, f)
+			}
+			c20Check(r, fmt.Sprintf("trace/%d/%d", w, i), root, target, "c09")
+		}
 	})
 	finish(t, r, r.N(10, 20), "prev=settled/epoch/sent", "walk/*")
 }
